@@ -18,11 +18,15 @@ func (c *Conn) handleSelect(tag string, dec *imapwire.Decoder, readOnly bool) er
 	}
 
 	if c.state == imap.ConnStateSelected {
-		if err := c.session.Unselect(); err != nil {
+		// RFC 9051 section 6.3.2: the previous mailbox is deselected before the
+		// new selection is attempted, so a SELECT which fails leaves no mailbox
+		// selected, even when the failure comes from the backend's Unselect
+		err := c.session.Unselect()
+		c.state = imap.ConnStateAuthenticated
+		if err != nil {
 			return err
 		}
-		c.state = imap.ConnStateAuthenticated
-		err := c.writeStatusResp("", &imap.StatusResponse{
+		err = c.writeStatusResp("", &imap.StatusResponse{
 			Type: imap.StatusResponseTypeOK,
 			Code: "CLOSED",
 			Text: "Previous mailbox is now closed",
